@@ -31,15 +31,11 @@ var bridged = map[string]interface{}{
 	"strconv.ParseUint":   strconv.ParseUint,
 	"strconv.ParseBool":   strconv.ParseBool,
 	"strconv.Quote":       strconv.Quote,
-	"strings.ToUpper":     strings.ToUpper,
-	"strings.ToLower":     strings.ToLower,
 	"strings.Repeat":      strings.Repeat,
 	"strings.TrimSpace":   strings.TrimSpace,
 	"strings.EqualFold":   strings.EqualFold,
 	"strings.Fields":      strings.Fields,
 	"strings.Title":       strings.Title,
-	"unicode.ToUpper":     unicode.ToUpper,
-	"unicode.ToLower":     unicode.ToLower,
 	"unicode.IsSpace":     unicode.IsSpace,
 	"unicode.IsUpper":     unicode.IsUpper,
 	"unicode.IsLower":     unicode.IsLower,
@@ -47,7 +43,6 @@ var bridged = map[string]interface{}{
 	"unicode.IsDigit":     unicode.IsDigit,
 	"unicode.IsPrint":     unicode.IsPrint,
 	"unicode.SimpleFold":  unicode.SimpleFold,
-	"regexp.QuoteMeta":    regexp.QuoteMeta,
 	"math.Sqrt":           math.Sqrt,
 	"math.Pow":            math.Pow,
 	"math.Floor":          math.Floor,
@@ -69,6 +64,8 @@ var bridged = map[string]interface{}{
 // pureWhenConcrete lists interpretable functions that are nevertheless run on
 // the host when every operand is concrete (speed; identical semantics).
 var pureWhenConcrete = map[string]interface{}{
+	"strings.ToUpper":      strings.ToUpper,
+	"strings.ToLower":      strings.ToLower,
 	"strings.Contains":     strings.Contains,
 	"strings.HasPrefix":    strings.HasPrefix,
 	"strings.HasSuffix":    strings.HasSuffix,
@@ -504,6 +501,49 @@ func init() {
 			}
 			return iface{}
 		},
+		"unicode.ToUpper": func(i *interpreter, fr *frame, a []value) value { return i.caseModel(a[0], true) },
+		"unicode.ToLower": func(i *interpreter, fr *frame, a []value) value { return i.caseModel(a[0], false) },
+		"regexp.QuoteMeta": func(i *interpreter, fr *frame, a []value) value {
+			if deepConcrete(a[0]) {
+				return regexp.QuoteMeta(i.concString(a[0]))
+			}
+			// symbolic: the result differs from the input iff some byte is special
+			b := i.tb
+			var any []*smt.Term
+			for _, c := range strBytes(a[0]) {
+				t := i.lift(c)
+				for _, sp := range []byte(`\.+*?()|[]{}^$`) {
+					any = append(any, b.Eq(t, b.BVConst(uint64(sp), 8)))
+				}
+			}
+			if i.branch(b.Or(any...)) {
+				return regexp.QuoteMeta(i.concString(a[0]))
+			}
+			return a[0]
+		},
+		"regexp.Compile": func(i *interpreter, fr *frame, a []value) value {
+			pat := i.concString(a[0])
+			i.ps.lastRegexp = pat
+			if _, err := regexp.Compile(pat); err != nil {
+				return tuple{(*value)(nil), iface{errorType, err.Error()}}
+			}
+			var cell value = structure{pat}
+			return tuple{&cell, iface{}}
+		},
+		"regexp.MustCompile": func(i *interpreter, fr *frame, a []value) value {
+			pat := i.concString(a[0])
+			if _, err := regexp.Compile(pat); err != nil {
+				panic(targetPanic{iface{errorType, "regexp: Compile: " + err.Error()}})
+			}
+			var cell value = structure{pat}
+			return &cell
+		},
+		"(*regexp.Regexp).MatchString": func(i *interpreter, fr *frame, a []value) value {
+			// Go's regexp is the stated oracle: matching is an uninterpreted predicate of
+			// (compiled pattern, subject); the harness reference uses the same function.
+			pat := (*a[0].(*value)).(structure)[0].(string)
+			return i.ufCall("re:"+pat, []value{iface{types.Typ[types.String], a[1]}}, types.Bool)
+		},
 		"internal/abi.NoEscape": func(i *interpreter, fr *frame, a []value) value { return a[0] },
 		"internal/bytealg.MakeNoZero": func(i *interpreter, fr *frame, a []value) value {
 			n := i.concInt(a[0])
@@ -865,4 +905,30 @@ func (i *interpreter) parseFloatModel(s, bits value) (value, value) {
 		return i.mk(i.tb.FFromBits(w), types.Float64), iface{}
 	}
 	return 0.0, iface{errorType, "strconv.ParseFloat: parsing symbolic text: invalid syntax"}
+}
+
+// caseModel: unicode.ToUpper/ToLower. ASCII stays symbolic (arithmetic on the
+// letter range), anything else is concretised and mapped by the host's unicode tables.
+func (i *interpreter) caseModel(r value, upper bool) value {
+	s, ok := r.(*Sym)
+	if !ok {
+		if upper {
+			return unicode.ToUpper(r.(int32))
+		}
+		return unicode.ToLower(r.(int32))
+	}
+	b := i.tb
+	if i.branch(b.BVCmp(smt.OULT, s.T, b.BVConst(0x80, 32))) {
+		lo, hi, delta := uint64('a'), uint64('z'), uint64(0xffffffe0) // -32
+		if !upper {
+			lo, hi, delta = 'A', 'Z', 32
+		}
+		in := b.And(b.BVCmp(smt.OULE, b.BVConst(lo, 32), s.T), b.BVCmp(smt.OULE, s.T, b.BVConst(hi, 32)))
+		return i.mk(b.Ite(in, b.BVBin(smt.OAdd, s.T, b.BVConst(delta, 32)), s.T), types.Int32)
+	}
+	c := i.concValue(r).(int32)
+	if upper {
+		return unicode.ToUpper(c)
+	}
+	return unicode.ToLower(c)
 }
